@@ -216,4 +216,94 @@ def mergeAt (c : CAS) (O : Oracle) (fuel : Nat) (d : Dig) (tp : Path) (fs : Node
     (updAt (fun _ => r.1) tp fs, r.2)
   | _ => (fs, .error (some .fs))
 
+/-! ## the same walk with a state-passing file fetcher: `hardlinkingFileFetcher`
+
+`cmd/bb_worker` wraps the file fetcher of a naive build directory in
+`cas.NewHardlinkingFileFetcher` (`InputRoot.HardLink`, the cache directory and its
+bookkeeping are the state threaded through the walk; downloads are taken in launch order,
+as `InputRoot.HardLink` assumes). `key` stands for the cache file name (digest + "+x"/"-x"),
+`unkey` says which file a cache file with the contents of a key is. The base fetcher is
+`getFile` above: it can deliver (`casHas`) iff none of its calls fails. -/
+
+structure HLParams where
+  key : Dig → Bool → Nat
+  unkey : Nat → Dig × Bool
+
+/-- `hardlinkingFileFetcher.GetFile` into the directory with contents `ch` (a name that is
+taken makes `link(2)` / `CreateExcl` fail with `EEXIST`). The file that appears is the one whose
+contents the fetcher delivered (`HardLink.Result.ok cont`). -/
+def getFileHL (c : CAS) (O : Oracle) (K : HLParams) (s : HardLink.State) (q : Path) (d : Dig)
+    (exec : Bool) (name : Name) (ch : Children) : HardLink.State × Option Children :=
+  if hasName ch name then ((HardLink.tryLink s (K.key d exec)).1, none)
+  else
+    let casHas := !(O.fails .create q) && !(O.cas.contains d) && (assoc c.blobs d).isSome &&
+      !(O.fails .chtimes q)
+    match HardLink.getFile s (K.key d exec) d.size casHas with
+    | (s', .ok cont) => (s', some (ch ++ [(name, .file (K.unkey cont).1 (K.unkey cont).2 none)]))
+    | (s', _) => (s', none)
+
+structure RS where
+  st : HardLink.State
+  r : R
+
+def loopS {α : Type} (step : α → HardLink.State → Children → Bool → HardLink.State × StepR) :
+    List α → HardLink.State → Children → Bool → RS
+  | [], s, ch, bad => ⟨s, ⟨ch, bad, none⟩⟩
+  | e :: rest, s, ch, bad =>
+    match step e s ch bad with
+    | (s', .stop ch' bad' err) => ⟨s', ⟨ch', bad', some err⟩⟩
+    | (s', .next ch' bad') => loopS step rest s' ch' bad'
+
+def fileStepHL (c : CAS) (O : Oracle) (K : HLParams) (p : Path) (e : FileNode)
+    (s : HardLink.State) (ch : Children) (bad : Bool) : HardLink.State × StepR :=
+  if !validName e.name then (s, .stop ch bad (.decode .invalidArgument))
+  else match parseDigest c.hashLen e.digest with
+    | none => (s, .stop ch bad (.decode .invalidArgument))
+    | some d =>
+      if bad && O.stop.contains (p ++ [e.name]) then (s, .stop ch bad .canceled)
+      else match getFileHL c O K s (p ++ [e.name]) d e.exec e.name ch with
+        | (s', some ch') => (s', .next ch' bad)
+        | (s', none) => (s', .next ch true)
+
+def dirStepHL (c : CAS) (O : Oracle) (rec : Dig → Path → Bool → HardLink.State → RS) (p : Path)
+    (e : DirNode) (s : HardLink.State) (ch : Children) (bad : Bool) : HardLink.State × StepR :=
+  if !validName e.name then (s, .stop ch bad (.decode .invalidArgument))
+  else match parseDigest c.hashLen e.digest with
+    | none => (s, .stop ch bad (.decode .invalidArgument))
+    | some d =>
+      match lookup ch e.name with
+      | some v => (s, .stop ch bad (.exist (isFile v)))
+      | none =>
+        if O.fails .mkdir (p ++ [e.name]) then (s, .stop ch bad .fs)
+        else if O.fails .enter (p ++ [e.name]) then (s, .stop (ch ++ [(e.name, .dir [])]) bad .fs)
+        else
+          let rs := rec d (p ++ [e.name]) bad s
+          match rs.r.err with
+          | some err => (rs.st, .stop (ch ++ [(e.name, .dir rs.r.ch)]) (bad || rs.r.failed) err)
+          | none => (rs.st, .next (ch ++ [(e.name, .dir rs.r.ch)]) (bad || rs.r.failed))
+
+/-- `mergeDirectoryContents` with the hard-linking fetcher. -/
+def mergeDirInHL (c : CAS) (O : Oracle) (K : HLParams) :
+    Nat → Dig → Path → Children → Bool → HardLink.State → RS
+  | 0, _, _, ch, bad, s => ⟨s, ⟨ch, bad, some .fuel⟩⟩
+  | f + 1, d, p, ch, bad, s =>
+    match getDirectory c O.cas d with
+    | .error e => ⟨s, ⟨ch, bad, some (.decode e)⟩⟩
+    | .ok m =>
+      let r1 := loopS (fileStepHL c O K p) m.files s ch bad
+      match r1.r.err with
+      | some _ => r1
+      | none =>
+        let r2 := loopS (dirStepHL c O (fun d' q b s' => mergeDirInHL c O K f d' q [] b s') p) m.dirs
+          r1.st r1.r.ch r1.r.failed
+        match r2.r.err with
+        | some _ => r2
+        | none => loopS (fun e s' ch' b => (s', symStep O p e ch' b)) m.syms r2.st r2.r.ch r2.r.failed
+
+/-- `MergeDirectoryContents` of a naive build directory whose file fetcher is the hard-linking one. -/
+def mergeHL (c : CAS) (O : Oracle) (K : HLParams) (fuel : Nat) (d : Dig) (ch : Children)
+    (s : HardLink.State) : HardLink.State × Children × Outcome :=
+  let rs := mergeDirInHL c O K fuel d [] ch false s
+  (rs.st, rs.r.ch, outcomeOf rs.r)
+
 end BbRe.NaiveDir
